@@ -4,3 +4,5 @@ claimed = {
          "as C01; rank keys numeric only", "TLA+ Relational spec, TLC exhaustive enumeration + simulation, conformance replay"),
 }
 not_applicable_reasons = {}
+claimed["C14"] = (MC, "SeqLib spec defines contains, has_prefix/suffix, trim_*, split, join, concat, repeat and sub on TLA+ sequences from textbook definitions; TLC checks the laws the property names (join inverts split, contains iff split splits, trim removes exactly a present prefix/suffix) and enumerates ALL (pattern, subject) pairs and (old, new, subject) triples over a small alphabet exhaustively; each case is evaluated as string, byte array and array and compared with the spec (and with each other where the spec is Unspec).",
+   "letters map to chars/bytes 96+k and numbers k; the empty sequence is {} in all representations; empty delimiter/old pattern only require the three representations to correspond", "TLA+ SeqLib spec, TLC exhaustive enumeration, conformance replay in three representations")
